@@ -101,6 +101,50 @@ def build(sig, kind, annotated=False):
     _CACHE[key] = (orig, sym)
   return _CACHE[key]
 
+def base_call_text(sigb):
+  """How the subclass __init__ calls super().__init__: every positional parameter of the base by position, required keyword-only ones by keyword."""
+  parts = ['0'] * len(sigb['pos']) + ['%s=0' % n for n, d in sigb['kwonly'] if d is None]
+  return ', '.join(parts)
+
+def sub_source(sigb, sigd):
+  return ('class D(B):\n  def __init__(%s):\n    super().__init__(%s)\n'
+          '    self.rec = {k_: v_ for k_, v_ in locals().items() if k_ not in ("self", "__class__")}\n'
+          % (', '.join(['self'] + param_text(sigd, False)), base_call_text(sigb)))
+
+_PAIRS = {}
+def build_pair(pair_id, sigb, sigd, order):
+  """A symbolized base class and a subclass of the wrapper with its own __init__ of another shape (pyglove symbolizes it
+  automatically), next to the same pair left plain. order: 'sub-first' (the subclass is used before the base ever is),
+  'base-first' (the base is instantiated first), 'base-rebound-first' (instantiated and rebound first).
+  Returns (plain subclass, symbolic subclass)."""
+  import pyglove as pg, types
+  if pair_id not in _PAIRS:
+    out = []
+    for symbolic in (False, True):
+      mod = types.ModuleType('c18_pair_%d_%d' % (len(_PAIRS), int(symbolic)))
+      sys.modules[mod.__name__] = mod
+      ns = mod.__dict__
+      exec(cls_source(sigb), ns)
+      B = ns['C']
+      if symbolic:
+        B = pg.symbolize(B)
+      ns['B'] = B
+      if order != 'sub-first':
+        b = B(*[0] * len(sigb['pos']), **{n: 0 for n, d in sigb['kwonly'] if d is None})
+        if order == 'base-rebound-first' and symbolic:
+          names = [n for n, _ in sigb['pos'] + sigb['kwonly']]
+          if names: b.rebind({names[0]: 5})
+          b.clone(deep=True)
+      exec(sub_source(sigb, sigd), ns)
+      out.append(ns['D'])
+    _PAIRS[pair_id] = tuple(out)
+  return _PAIRS[pair_id]
+
+def class_under_test(case):
+  if case['kind'] == 'subclass':
+    return build_pair(case['pair'], case['base_sig'], case['sig'], case['order'])
+  return build(case['sig'], 'class', case.get('annotated', False))
+
 # ---- tree encodings (must print exactly what Model/Binding.v prints) --------------------------------
 def enc_val(v):
   if isinstance(v, (list, tuple)) or type(v).__name__ == 'List':
@@ -175,8 +219,9 @@ def run_functor_impl(case, typecheck=True):
   return [[0, state], out], x
 
 def run_class_impl(case):
+  import pyglove as pg
   sig = case['sig']
-  orig, X = build(sig, 'class', case.get('annotated', False))
+  orig, X = class_under_test(case)
   try:
     x = (X.partial if case['partial'] else X)(*case['ctor'][0], **dict(case['ctor'][1]))
   except Exception as e:
@@ -186,6 +231,14 @@ def run_class_impl(case):
       x.rebind({k: v}, raise_on_no_change=False)
     except Exception as e:
       return [[1, 1, err_kind(e)], []], None
+  post = case.get('post', 0)
+  if post and not x.sym_partial:
+    # clone / JSON round trip re-run the user __init__: it must receive the same arguments again
+    try:
+      if post == 1: x = x.clone(deep=bool(case.get('deep')))
+      else: x = pg.from_json(json.loads(json.dumps(x.to_json())))
+    except Exception as e:
+      return [[1, 2, err_kind(e)], []], None
   attrs, vattr = attrs_of(sig, x)
   if x.sym_partial:
     out = [2]
@@ -320,7 +373,7 @@ def classify_hit(case, got, exp, tag=''):
   f = features(case)
   d = ('returns-where-direct-raises' if got[0] == 0 and exp[0] == 1 else 'raises-where-direct-returns' if got[0] == 1 and exp[0] == 0
        else 'different-arguments' if got[0] == 0 else 'different-error-class')
-  return 'C18/call/%s/%s/%s' % (('class' if case['kind'] == 'class' else 'functor') + tag, d, f[0] if f else 'plain')
+  return 'C18/call/%s/%s/%s' % ((case['kind'] if case['kind'] in ('class', 'subclass') else 'functor') + tag, d, f[0] if f else 'plain')
 
 # ---- generators ----------------------------------------------------------------------------------------
 VALS = [1, 2, 3, 10, 11, 12, 20, 21]
@@ -400,6 +453,12 @@ def gen_class_case(rng, sig):
   c['ctor'] = gen_supply(rng, sig, False, tidy=rng.random() < .7)
   c['lates'] = gen_lates(rng, sig, rng.choice([0, 0, 1, 1, 2]))
   c['partial'] = rng.random() < .5
+  c['post'] = rng.choice([0, 0, 0, 1, 2]); c['deep'] = rng.random() < .5
+  return c
+
+def gen_subclass_case(rng, pair, sigb, sigd, order):
+  c = gen_class_case(rng, sigd)
+  c.update(kind='subclass', pair=pair, base_sig=sigb, order=order, post=rng.choice([0, 0, 1, 1, 2]), deep=rng.random() < .5)
   return c
 
 def grid_supplies(sig):
@@ -440,7 +499,7 @@ def random_sig(rng, maxpos=3, maxkw=2, posonly=False):
 
 def case_tree(case, q):
   s = enc_sig(case['sig'])
-  if case['kind'] == 'class':
+  if case['kind'] in ('class', 'subclass'):
     return [1, s, enc_call(case['ctor']), int(case['partial']), [[NAMES[k], enc_val(v)] for k, v in case['lates']]]
   return [0, [int(q['noop_rebind'])], s, enc_call(case['ctor']), [int(case['ov']), int(case['ie'])],
           [[NAMES[k], enc_val(v)] for k, v in case['lates']], enc_call(case['call']),
@@ -521,7 +580,7 @@ def typecheck_variant_hit(c, out):
 
 def oracle_class(ctx, case, out, hit):
   sig = case['sig']
-  orig, X = build(sig, 'class', case.get('annotated', False))
+  orig, X = class_under_test(case)
   eff = effective(sig, case['ctor'], case['lates'], None, False, False)
   exp = expected_outcome(orig, sig, eff, True)
   if not case['partial']:
@@ -558,9 +617,12 @@ def fmt_call(c):
   return '(%s)' % ', '.join([repr(v) for v in c[0]] + ['%s=%r' % tuple(kv) for kv in c[1]])
 
 def describe(case, with_call=True):
-  src = fn_source(case['sig'], case.get('annotated')).split('\n')[0] if case['kind'] != 'class' else cls_source(case['sig'], case.get('annotated')).split('\n')[1].strip()
+  is_cls = case['kind'] in ('class', 'subclass')
+  src = fn_source(case['sig'], case.get('annotated')).split('\n')[0] if not is_cls else cls_source(case['sig'], case.get('annotated')).split('\n')[1].strip()
+  if case['kind'] == 'subclass':
+    src = 'subclass %s calling super().__init__(%s) of symbolized base %s, %s' % (src, base_call_text(case['base_sig']), cls_source(case['base_sig']).split('\n')[1].strip(), case['order'])
   s = '%s [%s] ctor%s' % (src, case['kind'], fmt_call(case['ctor']))
-  if case['kind'] != 'class':
+  if not is_cls:
     s += ' override_args=%s ignore_extra_args=%s' % (case['ov'], case['ie'])
   else:
     s += ' partial=%s' % case['partial']
@@ -568,7 +630,7 @@ def describe(case, with_call=True):
     s += ' .rebind(%s=%r)' % (k, v)
   if case.get('post') == 1: s += ' .clone()'
   if case.get('post') == 2: s += ' from_json(to_json())'
-  if with_call and case['kind'] != 'class':
+  if with_call and not is_cls:
     s += ' call%s' % fmt_call(case['call'])
     if case['ovo'] is not None: s += ' override_args=%s' % case['ovo']
     if case['ieo'] is not None: s += ' ignore_extra_args=%s' % case['ieo']
@@ -582,7 +644,8 @@ def eff_tree(eff):
 
 def nontrivial(case):
   routes = (1 if case['ctor'][0] or case['ctor'][1] else 0) + (1 if case['lates'] else 0)
-  if case['kind'] != 'class':
+  if case['kind'] == 'subclass': routes += 1
+  if case['kind'] not in ('class', 'subclass'):
     routes += 1 if case['call'][0] or case['call'][1] else 0
   return routes >= 2
 
@@ -670,6 +733,17 @@ def run(ctx):
     fcases.append(gen_functor_case(rng, random_sig(rng, 3, 2, posonly=True)))
   for _ in range(ctx.scale(500, 12000)):
     ccases.append(gen_class_case(rng, random_sig(rng, 3, 2, posonly=True)))
+  # (G) inheritance: a symbolized base class and a subclass of the wrapper with its own __init__ of another shape, used in both
+  # orders (the Coq model has no subclassing: the subclass must behave as a symbolized class of its own signature)
+  npairs = ctx.scale(260, 4000)
+  small = list(all_sigs(1, 1))
+  for i in range(npairs):
+    sigb = rng.choice(small) if rng.random() < .8 else random_sig(rng, 2, 1)
+    sigd = rng.choice(sigs2) if rng.random() < .5 else random_sig(rng, 3, 2, posonly=True)
+    order = rng.choice(['sub-first', 'base-first', 'base-first', 'base-rebound-first'])
+    for _ in range(4):
+      ccases.append(gen_subclass_case(rng, 'p%d' % i, sigb, sigd, order))
+    ctx.hist('inheritance_order', order)
   for c in fcases:
     if rng.random() < .1: c['annotated'] = all(isinstance(v, int) for v in c['ctor'][0] + [v for _, v in c['ctor'][1] + c['lates'] + c['call'][1]] + c['call'][0]
                                                  if True) and not any(k == c['sig']['varargs'] for k, _ in c['ctor'][1] + c['lates'])
@@ -703,8 +777,9 @@ def run(ctx):
     out, x = run_class_impl(c)
     add(case_tree(c, q), out, c)
     nt = nontrivial(c)
-    ctx.count(json.dumps(c, sort_keys=True, default=str), nontrivial=nt, sample=dict(case=describe(c)) if nt and rng.random() < .005 else None, kind='class')
-    ctx.hist('class_outcome', 'bind-error' if out[0][0] == 1 else ('partial' if out[1] == [2] else 'initialised'))
+    ctx.count(json.dumps(c, sort_keys=True, default=str), nontrivial=nt, sample=dict(case=describe(c)) if nt and rng.random() < .005 else None, kind=c['kind'])
+    ctx.hist('%s_outcome' % c['kind'], 'bind-error' if out[0][0] == 1 else ('partial' if out[1] == [2] else 'initialised'))
+    ctx.hist('class_post_step', {0: 'none', 1: 'clone', 2: 'json'}[c.get('post', 0)])
     oracle_class(ctx, c, out, hitter(c))
 
   model = ctx.model_run(trs)
@@ -730,9 +805,9 @@ def run(ctx):
           c2 = dict(c); c2['call'] = gen_supply(rng, c['sig'], False); c2['post'] = rng.choice([0, 1, 2])
           out, x = run_functor_impl(c2)
           oracle_functor(ctx, c2, out, hitter(c2))
-      elif c.get('kind') == 'class':
+      elif c.get('kind') in ('class', 'subclass'):
         for _ in range(20):
-          c2 = gen_class_case(rng, c['sig'])
+          c2 = gen_class_case(rng, c['sig']) if c['kind'] == 'class' else gen_subclass_case(rng, c['pair'], c['base_sig'], c['sig'], c['order'])
           out, x = run_class_impl(c2)
           oracle_class(ctx, c2, out, hitter(c2))
       if ctx.hits: break
@@ -754,7 +829,7 @@ def replay(ctx, rp):
     if not ok: hits.append(('signature', '%s vs %s' % (a, b)))
   else:
     case = c['case']
-    if case['kind'] == 'class':
+    if case['kind'] in ('class', 'subclass'):
       out, x = run_class_impl(case)
       oracle_class(ctx, case, out, h)
     else:
